@@ -28,10 +28,59 @@ CHECKS = {
             "DESIGN.md 3/C10"),
 }
 
+CHECKS.update({
+    "C02": ("exec", "exploration",
+            "runtime monitoring: result-class and step-bound monitor over honest VM executions",
+            "Functions of every e2e libfunc snippet and examples/ program (several optimization configurations, both metadata "
+            "solvers) and every corelib #[test] are executed in the real cairo-vm through the runner's own entry code and hint "
+            "processor, on inputs generated in-range from the Sierra parameter types and four gas budgets including 'exactly the "
+            "entry cost'. Held = no VM-level failure and steps <= gas/100+1 on every run observed whose program/trace uses audited "
+            "libfuncs only; the evidence lists the audited libfuncs that no run executed (blind spots).",
+            "Trusted: cairo-vm, the runner's honest hint processor, the argument generator's notion of in-range values.",
+            "DESIGN.md 3/C02"),
+    "C04": ("exec", "exploration",
+            "runtime monitoring: conservation inequality (gas charged >= priced trace resources) over recorded executions",
+            "For every completed run of the C02 workload with gas tracking and no syscalls, the steps and builtin counters of the "
+            "recorded trace are priced with the runner's own table and compared with the gas actually deducted (+100 for the "
+            "caller's return step). The minimum slack observed on the unchanged tree is exactly 0, so a one-step undercharge on "
+            "any executed path is visible. Held = inequality true on every run observed, under both solver settings.",
+            "Trusted: ExecutionResources as reported by cairo-vm; header/footer step removal identical to SierraCasmRunner::run_function.",
+            "DESIGN.md 3/C04"),
+    "C14": ("sierra", "exploration",
+            "runtime monitoring: panic/abort/allocation monitor over mutated Sierra programs and serialized classes",
+            "Hundreds of thousands (quick) to millions (thorough) of seeded program-level mutants of every Sierra program in the "
+            "repository, and felt-level mutants of every contract class JSON, are pushed through the untrusted-input pipeline "
+            "(registry, type sizes, metadata with the linear solvers and with both legacy solver configurations, Sierra->CASM, "
+            "class compilation) under catch_unwind, RLIMIT_AS and a crash journal. Held = every observed execution returned a "
+            "value or an error.",
+            "Trusted: the worker supervision; 6 GiB as the bound for 'allocates without bound'.",
+            "DESIGN.md 3/C14"),
+    "C15": ("sierra", "exploration",
+            "runtime monitoring: independent reference checker run next to the real acceptance decision",
+            "Every mutant (and unmutated corpus program) that registry+metadata+compile accept is re-checked by an independent "
+            "typing/linearity data-flow checker written for this purpose. Held = the checker accepted every program the "
+            "compiler accepted (tens of thousands of accepted mutants per quick run).",
+            "Trusted: libfunc signatures as exposed by the program registry; the checker's own copy/drop table.",
+            "DESIGN.md 3/C15"),
+    "C17": ("exec", "exploration",
+            "runtime monitoring: shadow call stack and pc-range monitor over relocated VM traces",
+            "On every run of the C02 workload the relocated trace is replayed against the static artefacts: each dynamic call "
+            "instance of a function with a declared ap change must move ap by exactly that amount, each pc must start an "
+            "instruction inside exactly one statement's recorded byte range, statement ranges must tile the code. Held on all "
+            "call instances observed (tens of thousands per quick run), under both ap-change solvers.",
+            "Trusted: the relocated trace of cairo-vm; instruction kinds from CairoProgram.instructions.",
+            "DESIGN.md 3/C17"),
+})
+
 PENDING = {
 }
 
 ENGINES = [
+    {"name": "exec", "path": "harness/src/exec.rs, harness/src/execchecks.rs, harness/src/values.rs, harness/src/w2.rs",
+     "serves_properties": ["C02", "C04", "C17"],
+     "kind_free_text": "monitored VM runs (trace, resources, gas) of compiled snippets and corelib tests + trace monitors"},
+    {"name": "sierra", "path": "harness/src/sierra_mut.rs", "serves_properties": ["C14", "C15"],
+     "kind_free_text": "Sierra/felt mutators, untrusted-pipeline totality monitor, independent typing/linearity checker"},
     {"name": "frontend", "path": "harness/src/frontend.rs", "serves_properties": ["C09", "C10"],
      "kind_free_text": "text mutators + lossless tree walker + totality monitor (catch_unwind, crash journal, H5 progress counter)"},
 ]
